@@ -288,72 +288,94 @@ func permEdges(e [][2]int) [][][2]int {
 // manager is not used any further (the real code would then recurse until the stack overflows).
 func TestC18Cycles(t *testing.T) {
 	rep := ev.NewReport("C18", "cycle-rejection")
-	n := 3
-	maxLen := 5
+	type cfg struct{ n, maxLen int }
+	cfgs := []cfg{{3, 5}, {4, 4}}
 	if ev.Thorough() {
-		maxLen = 6
+		cfgs = []cfg{{3, 6}, {4, 5}}
 	}
-	rep.Bound = fmt.Sprintf("every sequence of 1..%d AddDependency(x, y) calls over %d modules, all %d ordered pairs including x→x", maxLen, n, n*n)
-	rep.Rule = "the real AddDependency returns an error iff the new edge would close a cycle in the graph of accepted edges (a self-dependency is a cycle); distinct_nontrivial = sequences whose last edge closes a cycle"
-	nm := names(n)
-	pairs := n * n
-	var seq []int
-	var rec func(mm *modules.Manager, g uint32)
+	rep.Bound = fmt.Sprintf("every sequence of AddDependency(x, y) calls over the modules, all ordered pairs including x→x: %v as {modules, max sequence length}", cfgs)
+	rep.Rule = "the real AddDependency returns an error iff the new edge would close a cycle in the graph of accepted edges (a self-dependency is a cycle), and after every accepted edge DependenciesForModule of every module is exactly its transitive closure (whatever was asked before); distinct_nontrivial = sequences whose last edge closes a cycle"
 	count := int64(0)
-	rec = func(mm *modules.Manager, g uint32) {
-		if len(seq) == maxLen || rep.NumViolations() >= 10 {
-			return
-		}
-		for p := 0; p < pairs; p++ {
-			i, j := p/n, p%n
-			// rebuild a fresh manager with the accepted prefix (managers cannot be cloned)
-			m2 := modules.NewManager(log.NewNopLogger())
-			for _, x := range nm {
-				m2.RegisterModule(x, nil)
+	for _, c := range cfgs {
+		n, maxLen := c.n, c.maxLen
+		nm := names(n)
+		pairs := n * n
+		var seq []int
+		var rec func(g uint32)
+		rec = func(g uint32) {
+			if len(seq) == maxLen || rep.NumViolations() >= 10 {
+				return
 			}
-			g2 := uint32(0)
-			okPrefix := true
-			for _, q := range seq {
-				a, b := q/n, q%n
-				wouldCycle := a == b || closure(n, g2, b)[a]
-				err := m2.AddDependency(nm[a], nm[b])
-				if err == nil && !wouldCycle {
-					g2 |= 1 << (a*n + b)
-				} else if err == nil && wouldCycle {
-					okPrefix = false
-					break // never touch a manager that holds a cycle again
+			for p := 0; p < pairs; p++ {
+				i, j := p/n, p%n
+				// rebuild a fresh manager with the accepted prefix (managers cannot be cloned)
+				m2 := modules.NewManager(log.NewNopLogger())
+				for _, x := range nm {
+					m2.RegisterModule(x, nil)
+				}
+				g2 := uint32(0)
+				okPrefix := true
+				for _, q := range seq {
+					a, b := q/n, q%n
+					wouldCycle := a == b || closure(n, g2, b)[a]
+					err := m2.AddDependency(nm[a], nm[b])
+					if err == nil && !wouldCycle {
+						g2 |= 1 << (a*n + b)
+					} else if err == nil && wouldCycle {
+						okPrefix = false
+						break // never touch a manager that holds a cycle again
+					}
+				}
+				if !okPrefix {
+					continue
+				}
+				wouldCycle := i == j || closure(n, g2, j)[i]
+				err := m2.AddDependency(nm[i], nm[j])
+				count++
+				var names []string
+				for _, q := range seq {
+					names = append(names, nm[q/n]+"→"+nm[q%n])
+				}
+				names = append(names, nm[i]+"→"+nm[j])
+				if wouldCycle {
+					rep.Distinct(strings.Join(names, ","))
+				}
+				if (err != nil) != wouldCycle {
+					key := "cycle:other:" + strings.Join(names, ",")
+					if i == j {
+						key = "cycle:self-dependency:" + strings.Join(names, ",")
+					}
+					rep.Violate(key, fmt.Sprintf("after accepted edges %v (module→dependency), AddDependency(%s, %s) returned err=%v but the edge closes a cycle = %v", names[:len(names)-1], nm[i], nm[j], err, wouldCycle), nil)
+					continue
+				}
+				if err == nil {
+					g3 := g2 | 1<<(i*n+j)
+					bad := false
+					for x := 0; x < n && !bad; x++ {
+						want := closure(n, g3, x)
+						got := map[string]bool{}
+						for _, d := range m2.DependenciesForModule(nm[x]) {
+							got[d] = true
+						}
+						for y := 0; y < n; y++ {
+							if want[y] != got[nm[y]] {
+								rep.Violate("deps:"+strings.Join(names, ","), fmt.Sprintf("after accepted edges %v (module→dependency), DependenciesForModule(%s) = %v, transitive closure says %s is a dependency = %v", names, nm[x], m2.DependenciesForModule(nm[x]), nm[y], want[y]), nil)
+								bad = true
+								break
+							}
+						}
+					}
+					if bad {
+						continue
+					}
+					seq = append(seq, p)
+					rec(g3)
+					seq = seq[:len(seq)-1]
 				}
 			}
-			if !okPrefix {
-				continue
-			}
-			wouldCycle := i == j || closure(n, g2, j)[i]
-			err := m2.AddDependency(nm[i], nm[j])
-			count++
-			var names []string
-			for _, q := range seq {
-				names = append(names, nm[q/n]+"→"+nm[q%n])
-			}
-			names = append(names, nm[i]+"→"+nm[j])
-			if wouldCycle {
-				rep.Distinct(strings.Join(names, ","))
-			}
-			if (err != nil) != wouldCycle {
-				key := "cycle:other:" + strings.Join(names, ",")
-				if i == j {
-					key = "cycle:self-dependency:" + strings.Join(names, ",")
-				}
-				rep.Violate(key, fmt.Sprintf("after accepted edges %v (module→dependency), AddDependency(%s, %s) returned err=%v but the edge closes a cycle = %v", names[:len(names)-1], nm[i], nm[j], err, wouldCycle), nil)
-				continue
-			}
-			if err == nil {
-				seq = append(seq, p)
-				rec(m2, g2|1<<(i*n+j))
-				seq = seq[:len(seq)-1]
-			}
 		}
+		rec(0)
 	}
-	rec(nil, 0)
 	rep.Eval(count)
 	rep.Trans(count)
 	rep.State(count)
